@@ -1,6 +1,7 @@
 package main
 
 import (
+	"go/token"
 	"sort"
 
 	"golang.org/x/tools/go/ssa"
@@ -135,4 +136,112 @@ func explorationRoots(c *Ctx, fn *ssa.Function) []*ssa.Function {
 	walk(fn, 0)
 	sort.Slice(out, func(i, j int) bool { return fnLess(c.P, out[i], out[j]) })
 	return out
+}
+
+// staticOrigins is originsWithin across the boundaries of helpers that are
+// explored inline from root: it walks phis, conversions and
+//   - results of calls to such helpers  → the values their returns yield,
+//   - parameters of such helpers        → the arguments at their call sites,
+// and reports whether every origin satisfies accept. nil constants are
+// reported to accept like any other origin (callers decide whether a nil
+// origin matters).
+func staticOrigins(c *Ctx, root *ssa.Function, v ssa.Value, accept func(ssa.Value) bool) (bool, string) {
+	inl := map[*ssa.Function]bool{}
+	for _, f := range inlineFuncs(root) {
+		inl[f] = true
+	}
+	seen := map[ssa.Value]bool{}
+	var walk func(v ssa.Value, depth int) (bool, string)
+	retsOf := func(f *ssa.Function, k int, depth int) (bool, string) {
+		n := 0
+		for _, b := range f.Blocks {
+			ret, ok := b.Instrs[len(b.Instrs)-1].(*ssa.Return)
+			if !ok || k >= len(ret.Results) {
+				continue
+			}
+			n++
+			if r, why := walk(ret.Results[k], depth+1); !r {
+				return false, why
+			}
+		}
+		if n == 0 {
+			return false, "helper " + f.Name() + " has no return"
+		}
+		return true, ""
+	}
+	walk = func(v ssa.Value, depth int) (bool, string) {
+		if v == nil || seen[v] || depth > 24 {
+			return true, ""
+		}
+		seen[v] = true
+		if accept(v) {
+			return true, ""
+		}
+		switch x := v.(type) {
+		case *ssa.Phi:
+			for _, e := range x.Edges {
+				if r, why := walk(e, depth+1); !r {
+					return false, why
+				}
+			}
+			return true, ""
+		case *ssa.Convert:
+			return walk(x.X, depth+1)
+		case *ssa.ChangeType:
+			return walk(x.X, depth+1)
+		case *ssa.ChangeInterface:
+			return walk(x.X, depth+1)
+		case *ssa.Extract:
+			if call, ok := x.Tuple.(*ssa.Call); ok {
+				if f := call.Call.StaticCallee(); f != nil && inl[f] && f != root {
+					return retsOf(f, x.Index, depth)
+				}
+			}
+		case *ssa.Call:
+			if f := x.Call.StaticCallee(); f != nil && inl[f] && f != root && f.Signature.Results().Len() == 1 {
+				return retsOf(f, 0, depth)
+			}
+		case *ssa.Parameter:
+			g := x.Parent()
+			if g != root && inl[g] {
+				idx := -1
+				for i, p := range g.Params {
+					if p == x {
+						idx = i
+					}
+				}
+				n := 0
+				for _, site := range c.P.CallersOf(g) {
+					if !inl[site.Parent()] || site.Common().StaticCallee() != g || idx >= len(site.Common().Args) {
+						continue
+					}
+					n++
+					if r, why := walk(site.Common().Args[idx], depth+1); !r {
+						return false, why
+					}
+				}
+				if n > 0 {
+					return true, ""
+				}
+			}
+		case *ssa.UnOp:
+			// a local variable (spilled named result, address-taken local): every value stored into it
+			if al, ok := x.X.(*ssa.Alloc); ok && x.Op == token.MUL {
+				n := 0
+				for _, r := range *al.Referrers() {
+					if s, ok := r.(*ssa.Store); ok && s.Addr == ssa.Value(al) {
+						n++
+						if r2, why := walk(s.Val, depth+1); !r2 {
+							return false, why
+						}
+					}
+				}
+				if n > 0 {
+					return true, ""
+				}
+			}
+		}
+		return false, v.String()
+	}
+	return walk(v, 0)
 }
